@@ -82,11 +82,72 @@ package base
 //@   ensures [C02] sentinel: result.1 == CONTINUEFLAG && result.1 != nil
 //@   modifies nothing
 
+// a Statement holds exactly one alternative; the dispatcher evaluates that one, once (C02)
 //@ func (*Statement).Evaluate
 //@   props C02
-//@   ensures true
+//@   ghost n int = 0
+//@   ghost cv rv = RV_zero()
+//@   ghost ce error = nil
+//@   ghost cf bool = false
+//@   oncall (*IfStmt).Evaluate
+//@     assert [C02] one: n == 0 && recv == s.IfStmt
+//@     after n := 1
+//@     after cv := callresult.0
+//@     after ce := callresult.1
+//@     after cf := callresult.2
+//@   oncall (*ForStmt).Evaluate
+//@     assert [C02] one: n == 0 && recv == s.ForStmt
+//@     after n := 1
+//@     after cv := callresult.0
+//@     after ce := callresult.1
+//@     after cf := callresult.2
+//@   oncall (*ForRangeStmt).Evaluate
+//@     assert [C02] one: n == 0 && recv == s.ForRangeStmt
+//@     after n := 1
+//@     after cv := callresult.0
+//@     after ce := callresult.1
+//@     after cf := callresult.2
+//@   oncall (*BreakStmt).Evaluate
+//@     assert [C02] one: n == 0 && recv == s.BreakStmt
+//@     after n := 1
+//@     after cv := callresult.0
+//@     after ce := callresult.1
+//@     after cf := callresult.2
+//@   oncall (*ContinueStmt).Evaluate
+//@     assert [C02] one: n == 0 && recv == s.ContinueStmt
+//@     after n := 1
+//@     after cv := callresult.0
+//@     after ce := callresult.1
+//@     after cf := callresult.2
+//@   oncall (*MethodCall).Evaluate
+//@     assert [C02] one: n == 0 && recv == s.MethodCall
+//@     after n := 2
+//@     after cv := callresult.0
+//@     after ce := callresult.1
+//@   oncall (*FunctionCall).Evaluate
+//@     assert [C02] one: n == 0 && recv == s.FunctionCall
+//@     after n := 2
+//@     after cv := callresult.0
+//@     after ce := callresult.1
+//@   oncall (*ThreeLevelCall).Evaluate
+//@     assert [C02] one: n == 0 && recv == s.ThreeLevelCall
+//@     after n := 2
+//@     after cv := callresult.0
+//@     after ce := callresult.1
+//@   oncall (*Assignment).Evaluate
+//@     assert [C02] one: n == 0 && recv == s.Assignment
+//@     after n := 2
+//@     after cv := callresult.0
+//@     after ce := callresult.1
+//@   oncall (*ConcStatement).Evaluate
+//@     assert [C02] one: n == 0 && recv == s.ConcStatement
+//@     after n := 2
+//@     after cv := callresult.0
+//@     after ce := callresult.1
+//@   ensures [C02] control: n == 1 ==> result.0 == cv && result.1 == ce && result.2 == cf
+//@   ensures [C02] simple: n == 2 ==> result.0 == cv && result.1 == ce && !result.2
+//@   ensures [C02] empty: n == 0 ==> result.1 != nil && !result.2
 //@   modifies frame evalframe
-//@   trusted dispatcher contract pending
 
 //@ func (*Expression).Evaluate
 //@   props C01
@@ -154,6 +215,7 @@ package base
 //   phase: 0 init pending, 1 cond pending, 2 body pending (cond was true), 3 step pending, 9 finished
 //@ func (*ForStmt).Evaluate
 //@   props C02 C09
+//@   assume forall qi :: 0 <= qi && qi < len(forStmt.Assignments) ==> forStmt.Assignments[qi] != nil
 //@   ghost phase int = 0
 //@   ghost be error = nil
 //@   ghost bf bool = false
@@ -188,8 +250,160 @@ package base
 //@   loop 0 invariant auto: phase == 1 && 0 <= iCount && iCount <= 10000 && !condfalse && len(forStmt.Assignments) >= 2
 //@   loop 0 decreases 10001 - iCount
 
+// the recovering closures of Assignment / FunctionCall / MethodCall / ThreeLevelCall turn a panic into an
+// error that cites the node's own line (C09, C20)
+//@ func (*Assignment).Evaluate$1
+//@   props C09 C20
+//@   recoverer
+//@   requires a != nil
+//@   ensures [C09] converted: panicking ==> err != nil
+//@   ensures [C20] cites: panicking ==> cite(err) == a.LineNum
+//@   ensures unchanged: !panicking ==> err == old(err)
+//@   modifies err
+//@   nopanic
+
+// assignment (C02): the right-hand side is evaluated once, first; `op=` reads the current value of the target
+// before computing core.Op(current, rhs) in that operand order; exactly one write-back; no write after an error
+//   nrhs rhs evaluations, nread reads of the current value, nop arithmetic steps, nwrite writes
 //@ func (*Assignment).Evaluate
+//@   props C02 C09 C20
+//@   requires a != nil
+//@   recovers
+//@   nopanic
+//@   ghost nrhs int = 0
+//@   ghost nread int = 0
+//@   ghost nop int = 0
+//@   ghost nwrite int = 0
+//@   ghost failed bool = false
+//@   ghost rhs rv = RV_zero()
+//@   ghost cur rv = RV_zero()
+//@   ghost opres interface{} = nil
+//@   ghost boxed rv = RV_zero()
+//@   oncall (*MathExpression).Evaluate
+//@     assert [C02] rhsfirst: recv == a.MathExpression && nrhs == 0 && nread == 0 && nop == 0 && nwrite == 0
+//@     after nrhs := nrhs + 1
+//@     after rhs := callresult.0
+//@     after failed := callresult.1 != nil
+//@   oncall (*Expression).Evaluate
+//@     assert [C02] rhsfirst: recv == a.Expression && !failed && nread == 0 && nop == 0 && nwrite == 0
+//@     after nrhs := nrhs + 1
+//@     after rhs := callresult.0
+//@     after failed := callresult.1 != nil
+//@   oncall (*context.DataContext).GetValue
+//@     assert [C02] readcurrent: !failed && nread == 0 && nop == 0 && nwrite == 0 && arg1 == a.Variable && a.AssignOperator != "=" && a.AssignOperator != ":="
+//@     after nread := nread + 1
+//@     after cur := callresult.0
+//@     after failed := callresult.1 != nil
+//@   oncall (*MapVar).Evaluate
+//@     assert [C02] readcurrent: !failed && nop == 0 && nwrite == 0 && recv == a.MapVar && a.AssignOperator != "=" && a.AssignOperator != ":="
+//@     after nread := nread + 1
+//@     after cur := callresult.0
+//@     after failed := callresult.1 != nil
+//@   oncall core.Add
+//@     assert [C02] operands: !failed && nop == 0 && nwrite == 0 && (nread >= 1 || (len(a.Variable) == 0 && a.MapVar == nil)) && arg0 == cur && arg1 == rhs && a.AssignOperator == "+="
+//@     after nop := nop + 1
+//@     after opres := callresult.0
+//@     after failed := callresult.1 != nil
+//@   oncall core.Sub
+//@     assert [C02] operands: !failed && nop == 0 && nwrite == 0 && (nread >= 1 || (len(a.Variable) == 0 && a.MapVar == nil)) && arg0 == cur && arg1 == rhs && a.AssignOperator == "-="
+//@     after nop := nop + 1
+//@     after opres := callresult.0
+//@     after failed := callresult.1 != nil
+//@   oncall core.Mul
+//@     assert [C02] operands: !failed && nop == 0 && nwrite == 0 && (nread >= 1 || (len(a.Variable) == 0 && a.MapVar == nil)) && arg0 == cur && arg1 == rhs && a.AssignOperator == "*="
+//@     after nop := nop + 1
+//@     after opres := callresult.0
+//@     after failed := callresult.1 != nil
+//@   oncall core.Div
+//@     assert [C02] operands: !failed && nop == 0 && nwrite == 0 && (nread >= 1 || (len(a.Variable) == 0 && a.MapVar == nil)) && arg0 == cur && arg1 == rhs && a.AssignOperator == "/="
+//@     after nop := nop + 1
+//@     after opres := callresult.0
+//@     after failed := callresult.1 != nil
+//@   oncall reflect.ValueOf
+//@     after boxed := ite(arg0 == opres && nop == 1, callresult, boxed)
+//@   oncall (*context.DataContext).SetValue
+//@     assert [C02] onewrite: !failed && nwrite == 0 && arg1 == a.Variable && ((nop == 0 && arg2 == rhs) || (nop == 1 && arg2 == boxed))
+//@     after nwrite := nwrite + 1
+//@   oncall (*context.DataContext).SetMapVarValue
+//@     assert [C02] onewrite: !failed && nwrite == 0 && arg1 == a.MapVar.Name && ((nop == 0 && arg5 == rhs) || (nop == 1 && arg5 == boxed))
+//@     after nwrite := nwrite + 1
+//@   ensures [C02] nowriteonerror: failed ==> nwrite == 0 && result.1 != nil
+//@   ensures [C02] compoundshape: nwrite == 1 && (a.AssignOperator == "+=" || a.AssignOperator == "-=" || a.AssignOperator == "*=" || a.AssignOperator == "/=") ==> nop == 1
+//@   ensures [C02] plainshape: nwrite == 1 && (a.AssignOperator == "=" || a.AssignOperator == ":=") ==> nop == 0 && nread == 0
+//@   modifies frame evalframe
+
+//@ func (*MathExpression).Evaluate
+//@   props C01
+//@   ensures result.1 != nil ==> result.0 == RV_zero()
+//@   modifies frame evalframe
+//@   trusted expression contracts pending
+
+//@ func (*MapVar).Evaluate
+//@   props C03
+//@   ensures result.1 != nil ==> result.0 == RV_zero()
+//@   modifies frame evalframe
+//@   trusted container contracts pending
+
+// forRange key := container { body }: the iterator's keys, in iterator order, each bound once before its body run (C02)
+//   iters   keys bound so far;  bodyrun  bodies run;  fin  1 break / 2 return / 3 error / 4 empty body
+//@ func (*ForRangeStmt).Evaluate
 //@   props C02 C09
+//@   ghost it iter.Iteration = nil
+//@   ghost n0 int = 0
+//@   ghost iters int = 0
+//@   ghost bodyrun int = 0
+//@   ghost fin int = 0
+//@   ghost be error = nil
+//@   ghost bf bool = false
+//@   ghost bv rv = RV_zero()
+//@   ghost lastkey rv = RV_zero()
+//@   oncall iter.NewInter
+//@     after it := callresult.0
+//@     after n0 := gget(itrem, callresult.0)
+//@   oncall iter.Iteration.Key
+//@     assert [C02] keyonce: recv == it && iters == bodyrun && fin == 0 && gget(itrem, it) > 0
+//@     after iters := iters + 1
+//@     after lastkey := callresult
+//@   oncall (*context.DataContext).SetValue
+//@     assert [C02] bindkey: arg1 == forRangeStmt.keyName && arg2 == lastkey && iters == bodyrun + 1 && fin == 0
+//@     after fin := ite(callresult != nil, 3, 0)
+//@     after be := callresult
+//@   oncall (*Statements).Evaluate
+//@     assert [C02] bodyperkey: recv == forRangeStmt.StatementList && iters == bodyrun + 1 && fin == 0
+//@     after bodyrun := bodyrun + 1
+//@     after be := callresult.1
+//@     after bf := callresult.2
+//@     after bv := callresult.0
+//@     after fin := ite(callresult.1 == BREAKFLAG, 1, ite(callresult.1 == CONTINUEFLAG, 0, ite(callresult.1 != nil, 3, ite(callresult.2, 2, 0))))
+//@   ensures [C02] allkeys: it != nil && fin == 0 && forRangeStmt.StatementList != nil ==> iters == n0 && bodyrun == n0 && result.1 == nil && !result.2
+//@   ensures [C02] breakends: fin == 1 ==> result.1 == nil && !result.2
+//@   ensures [C02] returnends: fin == 2 ==> result.1 == nil && result.2 && result.0 == bv
+//@   ensures [C02] errorends: fin == 3 ==> result.1 == be && !result.2
+//@   modifies frame evalframe
+//@   loopwrites Vars
+//@   loop 0 invariant prog: it != nil && fin == 0 && iters == bodyrun && iters + gget(itrem, it) == n0 && gget(itpos, it) == iters && 0 <= iters && gget(itrem, it) >= 0
+//@   loop 0 decreases gget(itrem, it)
+
+//@ func (*MethodCall).Evaluate
+//@   props C09
 //@   ensures true
 //@   modifies frame evalframe
-//@   trusted assignment contract pending
+//@   trusted call contracts pending
+
+//@ func (*FunctionCall).Evaluate
+//@   props C09
+//@   ensures true
+//@   modifies frame evalframe
+//@   trusted call contracts pending
+
+//@ func (*ThreeLevelCall).Evaluate
+//@   props C09
+//@   ensures true
+//@   modifies frame evalframe
+//@   trusted call contracts pending
+
+//@ func (*ConcStatement).Evaluate
+//@   props C18
+//@   ensures true
+//@   modifies frame evalframe
+//@   trusted conc contract pending
